@@ -235,7 +235,7 @@ class Frame(object):
 
 
 class Obligation(object):
-    __slots__ = ("name", "kind", "pc", "goal", "path", "line", "note", "func", "hyp_defs")
+    __slots__ = ("name", "kind", "pc", "goal", "path", "line", "note", "func", "hyp_defs", "backend_hint")
 
     def __init__(self, name, kind, pc, goal, path, line, note="", func=""):
         self.name = name
@@ -246,6 +246,7 @@ class Obligation(object):
         self.line = line
         self.note = note
         self.func = func
+        self.backend_hint = None
 
 
 _EXT_BY_ID = {}
@@ -340,6 +341,12 @@ class Exec(object):
         return "".join(str(c) for c, _ in self.trail) or "-"
 
     def assume(self, cond):
+        if hasattr(cond, "decide"):
+            if cond.neg:
+                cond.F.assume_nonzero(cond.val.res)
+            else:
+                cond.F.assume_zero(cond.val.res)
+            return
         if isinstance(cond, SBool):
             self.pc.append(cond.t)
         elif isinstance(cond, SVal):
@@ -357,17 +364,27 @@ class Exec(object):
 
     def entails(self, cond):
         """cheap, sound entailment test from the ground facts of the path (no axioms)"""
+        if hasattr(cond, "decide"):
+            st = cond.F.status(cond.val.res)
+            from .field import iv_exact
+            if not iv_exact(cond.val.iv):
+                return False
+            return st == ("nonzero" if cond.neg else "zero")
         if not isinstance(cond, SBool):
             return bool(cond)
         return self._quick(z3.Not(cond.t)) == z3.unsat
 
     def refutes(self, cond):
+        if hasattr(cond, "decide"):
+            return self.entails(~cond)
         if not isinstance(cond, SBool):
             return not cond
         return self._quick(cond.t) == z3.unsat
 
     def branch(self, cond):
         """fork on a (possibly symbolic) boolean"""
+        if hasattr(cond, "decide"):
+            return cond.decide(self)
         if not isinstance(cond, SBool):
             if isinstance(cond, SVal):
                 raise EngineLimit("branch on non-boolean symbolic value")
@@ -381,6 +398,8 @@ class Exec(object):
 
     def branch_pruned(self, cond):
         """fork, but skip a side that the ground facts already exclude"""
+        if hasattr(cond, "decide"):
+            return cond.decide(self)
         if not isinstance(cond, SBool):
             return bool(cond)
         if self.entails(cond):
@@ -438,6 +457,12 @@ class Exec(object):
             raise EngineLimit("obligation %s is not boolean" % name)
         g = z3.BoolVal(False) if goal is False else goal.t
         self.obls.append(Obligation(name, kind, list(self.pc), g, self.path_id(), line, note, self.cur_func))
+
+    def oblige_decided(self, name, ok, backend, note="", line=None, kind="decided"):
+        """an obligation decided at generation time by a complete procedure (polynomial normal form, closed terms)"""
+        o = Obligation(name, kind, [], z3.BoolVal(bool(ok)), self.path_id(), line, note, self.cur_func)
+        o.backend_hint = backend
+        self.obls.append(o)
 
     # ------------------------------------------------------------------ conversion of real objects
     def convert(self, obj, name=None):
@@ -643,6 +668,9 @@ class Exec(object):
                 return a - b
             if isinstance(op, ast.Mult):
                 return a * b
+            if isinstance(op, ast.Mod) and getattr(b, "name", None) == "p" and hasattr(b, "F"):
+                # reduction modulo the field prime (p > 3 is a precondition of every algebra contract)
+                return (a if hasattr(a, "F") else b.F.const(a)) % b
             if isinstance(op, (ast.FloorDiv, ast.Mod)):
                 if conc:
                     if b == 0:
@@ -1135,6 +1163,8 @@ class Exec(object):
         v = None
         for i, x in enumerate(e.values):
             v = self.eval(x, fr)
+            if hasattr(v, "decide"):
+                v = v.decide(self)          # field conditions are decided (forked) where they are produced
             if i == len(e.values) - 1:
                 return v
             t = self.is_true(v)
@@ -1400,7 +1430,10 @@ class Exec(object):
             fr.locals[a.asname or a.name] = self.convert(getattr(m, a.name))
 
     def s_Return(self, st, fr):
-        raise _Return(self.eval(st.value, fr) if st.value is not None else None)
+        v = self.eval(st.value, fr) if st.value is not None else None
+        if hasattr(v, "decide"):
+            v = v.decide(self)
+        raise _Return(v)
 
     def s_Break(self, st, fr):
         raise _Break()
